@@ -34,6 +34,18 @@ def natural_scripts(quick):
                    {'op': 'set', 'var': 'w', 'attr': 'user_state', 'value': 'parent', 'tag': 'setter'},
                    {'op': 'get', 'var': 'w', 'attr': 'user_state', 'tag': 'state-after-setter'}]
             out.append({'script': sc, 'kind': kind, 'init': init, 'm': m, 'ending': ending, 'part': 'natural'})
+    # a final state much bigger than the socket buffers, read slowly by the parent (the child process is long gone by then)
+    for kind in ('R', 'PR'):
+        for size in ((1 << 20,) if quick else (208 * 1024 + 1, 1 << 20, 4 << 20)):
+            for ending in ('return', 'raise'):
+                sc = [{'op': 'create', 'var': 'w', 'kind': kind, 'wcls': 'State', 'target': 't_ret_now', 'init_state': None,
+                       'kwargs': {'m': 1, 'ending': ending, 'big': size}, 'slow_reader': {'chunk': 16384, 'sleep': 0.01}}]
+                if kind == 'PR':
+                    sc += [{'op': 'call', 'var': 'w', 'method': 'enqueue', 'args': []}]
+                sc += [{'op': 'call', 'var': 'w', 'method': 'wait', 'args': [40], 'timeout': 60},
+                       {'op': 'get', 'var': 'w', 'attr': 'user_state', 'tag': 'state-first', 'digest': True},
+                       {'op': 'get', 'var': 'w', 'attr': 'has_error', 'tag': 'has_error'}]
+                out.append({'script': sc, 'kind': kind, 'init': None, 'm': 1, 'ending': ending, 'part': 'natural', 'big': size})
     return out
 
 
@@ -138,6 +150,10 @@ def judge_natural(case, obs):
     bad = []
     if any(s.get('hang') or s.get('harness_error') for s in obs['steps']):
         return [('harness', 'step hang/error %s' % [s for s in obs['steps'] if s.get('hang') or s.get('harness_error')][:1])]
+    if case.get('big'):
+        got = t['state-first'].get('ret')
+        ok = isinstance(got, dict) and got.get('len') == 2 and got.get('head') == 'big' and got.get('size') == case['big']
+        return [] if ok else [('big-state-not-synchronised-slow-reader', {'got': str(t['state-first'])[:200], 'expected_size': case['big']})]
     exp = ['assigned', case['m']] if case['m'] > 0 else case['init']
     first = t['state-first']
     if first.get('ret', 'X') != exp:
@@ -266,7 +282,7 @@ def run(ctx):
                           detail, 'user_state synchronised at end of life, and only then', engine='SEQ' if 'script' in case else 'LAND')
     for case, obs in zip(nat, res[:len(nat)]):
         ctx.count()
-        ctx.distinct(('nat', case['kind'], repr(case['init']), case['m'], case['ending']))
+        ctx.distinct(('nat', case['kind'], repr(case['init']), case['m'], case['ending'], case.get('big')))
         v = judge_natural(case, obs)
         ctx.outcome('natural:%s:%s' % (case['kind'], v[0][0] if v else 'ok'))
         report(case, v, 'SEQ/%s/natural-%s' % (case['kind'], case['ending']), obs)
